@@ -226,10 +226,17 @@ def StageReference(dataReference,  # type: experiment.model.graph.DataReference
                 #(due to charactwise matching performed)
                 target = os.path.join(os.path.realpath(dest), '')
                 for f in tar.getmembers():
-                    newPath = os.path.join(location.path, f.name)
+                    # VV: normalise the path of the member (it may contain `..` segments or be absolute)
+                    newPath = os.path.join(os.path.realpath(os.path.join(dest, f.name)), '')
                     #if target includes / then commonprefix will include it
                     if os.path.commonprefix([target, newPath]) != target:
                         raise tarfile.ReadError('Archive contains files that would be extracted outside of destination')
+                    if f.issym() or f.islnk():
+                        # VV: symbolic links are relative to the link itself, hard links to the root of the archive
+                        linkBase = os.path.dirname(newPath.rstrip(os.path.sep)) if f.issym() else dest
+                        linkPath = os.path.join(os.path.realpath(os.path.join(linkBase, f.linkname)), '')
+                        if os.path.commonprefix([target, linkPath]) != target:
+                            raise tarfile.ReadError('Archive contains links that point outside of destination')
 
                 tar.extractall(dest)
                 tar.close()
